@@ -312,6 +312,41 @@ theorem lines_eq (chunk : Nat) (content : Bytes) (hz : ∀ b ∈ content, b ≠ 
   rw [linesLoop_eq _ _ _ (by simp) hz]
   simp
 
+/-! ## the loop `while (readLine(s))` -/
+
+/-- one byte-by-byte call against all lines: a `true` call delivers the first line and leaves the rest; a `false` call
+    leaves the only (last) piece and the stream at its end -/
+theorem rlSpec_while (racc rest : Bytes) (e : Bool) :
+    ((rlSpec racc rest e).1.2 = true →
+        linesRef racc rest = (rlSpec racc rest e).1.1 :: linesRef [] (rlSpec racc rest e).2.rest) ∧
+    ((rlSpec racc rest e).1.2 = false →
+        linesRef racc rest = [(rlSpec racc rest e).1.1] ∧ (rlSpec racc rest e).2 = ⟨[], true⟩) := by
+  induction rest generalizing racc with
+  | nil => simp [rlSpec, linesRef]
+  | cons c t ih =>
+    by_cases hc : c = 10
+    · simp [rlSpec, linesRef, hc]
+    · simp only [rlSpec, linesRef, hc, if_false]
+      exact ih (c :: racc)
+
+theorem readWhileLoop_eq (k : Nat) (s : RStream) (acc : List Bytes) (hz : ∀ b ∈ s.rest, b ≠ 0) :
+    (readWhileLoop k s acc).1.1 ++ [(readWhileLoop k s acc).1.2] = acc.reverse ++ linesRef [] s.rest ∧
+    (readWhileLoop k s acc).2 = ⟨[], true⟩ := by
+  fun_induction readWhileLoop k s acc with
+  | case1 s acc r h ih =>
+    have hr : r = rlSpec [] s.rest s.eof := by simp only [r]; rw [readLineLoop_eq _ _ _ hz]
+    have hw := (rlSpec_while [] s.rest s.eof).1 (by rw [← hr]; exact h)
+    have ih' := ih (by rw [hr]; exact fun b hb => hz b (rlSpec_rest_mem _ _ _ b hb))
+    refine ⟨?_, ih'.2⟩
+    rw [ih'.1, hw, ← hr]
+    simp
+  | case2 s acc r h =>
+    have hr : r = rlSpec [] s.rest s.eof := by simp only [r]; rw [readLineLoop_eq _ _ _ hz]
+    have hf : r.1.2 = false := by cases hh : r.1.2 <;> simp_all
+    have hw := (rlSpec_while [] s.rest s.eof).2 (by rw [← hr]; exact hf)
+    rw [← hr] at hw
+    exact ⟨by rw [hw.1], hw.2⟩
+
 /-! ## `text()`: the UTF-16 unit loops -/
 
 /-- little-endian / big-endian bytes of 16-bit units -/
